@@ -162,14 +162,36 @@ def install_faults():
         cls.dump = dump
 
 
-def _mk(gen, tag):
-    """Corpus: tiny model whose content identifies its generation."""
+CORPUS = ["tiny (space, pickled + literal refs, cells with input)", "nested spaces, inheritance, ItemSpace input, object reference, docs",
+          "two top-level spaces with data files, uncached cells, model-level pickled reference"]
+
+
+def _mk(gen, tag, corpus=0):
+    """Corpus: models whose content identifies their generation (A.gen, A.tup, A.f[1], A.f(2))."""
     m = new_model(tag)
     A = m.new_space("A")
     A.gen = gen
     A.tup = (gen, "x")                      # pickled value
     A.new_cells("f", formula="lambda t: t + gen")
     A.f[1] = 100 + gen                      # input -> data file
+    if corpus == 1:
+        m.doc = "generation %d" % gen
+        Ch = A.new_space("Ch")
+        Ch.new_cells("g", formula="lambda: gen * 2")
+        Ch.g.doc = "doc"
+        B = m.new_space("B", bases=A)
+        B.new_cells("own", formula="lambda t: f(t) + 1")
+        P = m.new_space("P", formula="lambda n: None")
+        P.new_cells("h", formula="lambda t: n * t")
+        P[1].h[3] = gen
+        A.oref = Ch
+    elif corpus == 2:
+        m.big = {"k": [gen, gen + 1]}
+        C = m.new_space("C")
+        C.new_cells("u", formula="lambda t: t - 1", is_cached=False)
+        C.new_cells("c", formula="lambda t: u(t) * 2")
+        C.c[0] = gen
+        C.c[5] = gen + 5
     return m
 
 
@@ -191,29 +213,36 @@ def _gen_of(path):
 
 
 @harness
-def faults(fail_at: int, zipped: bool, phase: int, older: bool) -> bool:
-    zipped, phase, older = pickb(zipped), pick(phase, 0, 1), pickb(older)
+def faults(fail_at: int, zipped: bool, phase: int, older: bool, corpus: int, fail_at2: int) -> bool:
+    zipped, phase, older, corpus = pickb(zipped), pick(phase, 0, 2), pickb(older), pick(corpus, 0, 2)
     install_faults()
     base = _os.path.join(_os.environ.get("VERIF_SCRATCH", "/tmp"), "c14_%d" % _os.getpid())
     p = _os.path.join(base, "m.zip" if zipped else "m")
     save = mx.zip_model if zipped else mx.write_model
-    label("%s, fault in %s%s" % ("zip" if zipped else "dir", ("save", "load")[phase], ", older generation present" if older else ""))
+    label("%s, corpus %d, fault in %s%s" % ("zip" if zipped else "dir", corpus, ("save", "load", "two consecutive saves")[phase], ", older generation present" if older else ""))
     FAULTS.armed, FAULTS.count, FAULTS.fired, FAULTS.ops = False, 0, None, []
     try:
         with notrace():
             _sh.rmtree(base, ignore_errors=True)
             _os.makedirs(base)
             if older:
-                m0 = _mk(0, "G0")
+                m0 = _mk(0, "G0", corpus)
                 save(m0, p)
-            m1 = _mk(1, "G1")
+            m1 = _mk(1, "G1", corpus)
             save(m1, p)                       # last good save: generation 1
-            m2 = _mk(2, "G2")
+            m2 = _mk(2, "G2", corpus)
             registry = sorted(mx.get_models())
         FAULTS.fail_at = fail_at
         FAULTS.armed = True
-        if phase == 0:
+        if phase in (0, 2):
             r = call(save, m2, p)
+            if phase == 2:
+                # a second faulted attempt right after the first (whatever its outcome)
+                first_ok = r[0] == "ok"
+                FAULTS.count, FAULTS.fail_at = 0, fail_at2
+                r = call(save, m2, p)
+                if first_ok and r[0] == "err":
+                    r = ("err2", r[1], r[2])     # generation 2 was completely written before: it is the last good save now
         else:
             r = call(mx.read_model, p, name="LOADED")
         FAULTS.armed = False
@@ -243,15 +272,21 @@ def faults(fail_at: int, zipped: bool, phase: int, older: bool) -> bool:
                 if zipped and _os.path.exists(p):
                     valid_zip = _os.path.isfile(p) and _zf.is_zipfile(p) and _zf.ZipFile(p).testzip() is None
             good1, good2, good0 = ("gen", 1, 1, 1, 1), ("gen", 2, 2, 2, 2), ("gen", 0, 0, 0, 0)
-            if r[0] == "ok":
+            if r[0] == "ok" and phase == 0:
                 if not check(gp == good2 and gb1 == good1, "successful save: new copy at <p>, previous at _BAK1", lambda: (gp, gb1)):
                     return False
                 if older and not check(gb2 == good0, "older generation kept in order at _BAK2", lambda: gb2):
                     return False
+            elif r[0] == "ok":
+                if not check(gp == good2 and good1 in (gb1, gb2), "second save succeeded: generation 2 at <p>, generation 1 still among the backups", lambda: (gp, gb1, gb2)):
+                    return False
+            elif r[0] == "err2":
+                if not check(gp == good2 or gb1 == good2, "second save failed: the first (complete) copy of generation 2 is intact at <p> or <p>_BAK1", lambda: (fired, gp, gb1, gb2)):
+                    return False
             else:
                 if not check(gp == good1 or gb1 == good1, "failed save: the last good save is intact at <p> or <p>_BAK1", lambda: (fired, gp, gb1, gb2)):
                     return False
-                if older and not check(good0 in (gb1, gb2, _gen_of(p + "_BAK3")), "failed save: the older generation is still there", lambda: (gp, gb1, gb2)):
+                if older and phase == 0 and not check(good0 in (gb1, gb2, _gen_of(p + "_BAK3")), "failed save: the older generation is still there", lambda: (gp, gb1, gb2)):
                     return False
             if not check(valid_zip, "zip destination holds a partially written archive", lambda: fired):
                 return False
@@ -282,14 +317,17 @@ QUERIES = [
           bounds=lambda tier: {"state": "existence and dir/file kind of <p>, <p>_BAK1..4 symbolic (2^10), generation numbers unbounded symbolic ints",
                                "step": "one call of _increment_backups from an arbitrary state (inductive step)", "max_backups": 3},
           outside=["file-system semantics beyond the modelled rename/unlink/rmtree (permissions, cross-device renames)"]),
-    Query("faults", faults, pre=["1 <= fail_at <= %d" % NOPS, "0 <= phase <= 1"],
-          partitions=lambda tier, seed: ([dict(zipped=z, phase=0, older=False, fail_at=[lo, lo + 2]) for z in (False, True) for lo in range(1, NOPS, 3)] +
+    Query("faults", faults, pre=["1 <= fail_at <= 2 * %d" % NOPS, "0 <= phase <= 2", "0 <= corpus <= 2", "1 <= fail_at2 <= 2 * %d" % NOPS],
+          partitions=lambda tier, seed: [dict(p_, corpus=0, fail_at2=1) for p_ in ([dict(zipped=z, phase=0, older=False, fail_at=[lo, lo + 2]) for z in (False, True) for lo in range(1, NOPS, 3)] +
                                          [dict(zipped=z, phase=1, older=False, fail_at=[lo, lo + 3]) for z in (False, True) for lo in range(1, 16, 4)] +
-                                         [dict(zipped=z, phase=0, older=True, fail_at=[lo, lo + 2]) for z in (False, True) for lo in (1, 4)]),
-          natives=[dict(fail_at=k, zipped=z, phase=ph, older=o) for (k, z, ph, o) in ((1, False, 0, False), (2, False, 0, True), (5, True, 0, False), (19, True, 0, True), (20, False, 0, False),
-                                                                                      (3, False, 1, False), (2, True, 1, False), (12, True, 0, False), (9, False, 0, False))],
+                                         [dict(zipped=z, phase=0, older=True, fail_at=[lo, lo + 2]) for z in (False, True) for lo in (1, 4)])] +
+          ([dict(zipped=z, phase=2, older=False, corpus=0, fail_at=[lo, lo + 2], fail_at2=[lo2, lo2 + 3]) for z in (False, True) for lo in (1, 4, 7) for lo2 in (1, 5)] if tier == "quick" else
+           [dict(zipped=z, phase=ph, older=False, corpus=c_, fail_at=[lo, lo + 2], fail_at2=[1, 1] if ph != 2 else [lo2, lo2 + 5]) for z in (False, True) for ph in (0, 1, 2) for c_ in (0, 1, 2)
+            for lo in range(1, 2 * NOPS, 3) for lo2 in ((1, 7, 13) if ph == 2 else (1,))]),
+          natives=[dict(fail_at=k, zipped=z, phase=ph, older=o, corpus=k % 3, fail_at2=(k * 2) % 11 + 1) for (k, z, ph, o) in ((1, False, 0, False), (2, False, 0, True), (5, True, 0, False), (19, True, 0, True), (20, False, 0, False),
+                                                                                      (3, False, 1, False), (2, True, 1, False), (12, True, 0, False), (9, False, 0, False), (3, True, 2, False), (8, False, 2, False), (14, True, 2, False), (30, True, 2, False))],
           bounds=lambda tier: {"fault_positions": "every one of the first %d pathlib/shutil/zipfile/pickle operations of a save (a dir save performs 11-12, a zip save 16-17), first 16 of a load (5 / 13)" % NOPS, "containers": ["dir", "zip"],
-                               "corpus": "one tiny model (space, pickled and literal refs, cells with input)", "history": "[older save] ; good save ; faulted save|load ; two further saves"},
+                               "corpus": CORPUS, "corpus_used": "entry 0 (quick) / all three (thorough)", "phases": ["save", "load", "two consecutive faulted saves"], "history": "[older save] ; good save ; faulted save|load ; two further saves"},
           outside=["faults below the Python API (torn writes, power loss)", "concurrent writers", "larger models (more operations)"]),
 ]
 BUDGET = {"quick": 420, "thorough": 1200}
